@@ -4,7 +4,7 @@ from engine.qb import (AnalysisBroken, abstract_run, estr, unwrap, cval, walk, l
                        mentions_var, atoms_of, root_var, lockset, Sym, TOP)
 from rules.common import field_is, has_call, derives
 
-UNITS = ['lib/log.c', 'lib/log_dcs.c']
+UNITS = ['lib/log.c', 'lib/log_dcs.c', 'lib/log_file.c', 'lib/log_syslog.c', 'lib/log_blackbox.c', 'lib/log_thread.c']
 DECIDES = ('Decides that a filter change is applied to every known call site, that the replay for new call sites covers every '
            'target that can hold filters (or an equivalent shape), that all delivery loops use the same selection predicate with one '
            'delivery per target, that every filter type and every filter command is interpreted; outcomes over configuration '
@@ -17,9 +17,12 @@ RULES = {
     'R5': '_log_filter_store and _log_filter_apply_to_cs interpret every enum qb_log_filter_conf member and set/clear the bit of the target passed in',
     'W1': 'QB_LOG_TARGET_MAX <= number of bits of qb_log_callsite.targets',
     'R6': 'removing a filter (or clearing a tag filter) leaves the known call sites as the remaining stored filters select them: the remove path clears and then re-applies every stored filter of that target / every stored tag filter (what first-seen call sites get), it does not clear by the arguments of the remove call; closing a target clears its filters with arguments qb_log_filter_ctl accepts',
+    'R8': 'what disable closes, enable opens again: _log_target_disable runs the target\'s close callback; for every close callback the library itself installs (file, syslog, blackbox) _log_target_enable calls a function of the same unit that knows that callback (installs it again, or tests for it before it re-opens) - otherwise the target is ENABLED, its filters select the call site and nothing is delivered',
+    'R9': 'once per call also when the routing changes under a backlog: a queued record is routed when the logging thread writes it, so a change of a target\'s threaded switch, of the filters or tags of existing call sites, or a run of the custom filter function happens only with the queue written out and the thread kept out (= C16.R11) - otherwise a target that has written a line itself gets it again from the thread, or loses what was logged for it',
+    'R10': 'stored filters are replayed in the order they were set (the last tag filter that selects a call site decides its tag, whether it is applied when it is set or replayed for a call site seen later or after a tag filter was cleared): _log_filter_store appends at the tail and every walk over the tag filter list goes forward (or both are the other way round)',
     'R7': 'names are compared whole: the matcher makes no bounded copy of a filter alternative; the dynamic call-site lookup compares the function name wherever it compares the file name',
 }
-FLOORS = {'R1': 6, 'R2': 4, 'R3': 9, 'R4': 10, 'R5': 7, 'W1': 1, 'R6': 3, 'R7': 3}
+FLOORS = {'R1': 6, 'R2': 4, 'R3': 9, 'R4': 10, 'R5': 7, 'W1': 1, 'R6': 3, 'R7': 3, 'R8': 3, 'R9': 5, 'R10': 3}
 
 
 def run(ctx):
@@ -30,6 +33,10 @@ def run(ctx):
     r5(ctx)
     r6(ctx)
     r7(ctx)
+    r8(ctx)
+    from rules import c16
+    c16.routing_changes(ctx, 'R9')
+    r10(ctx)
     r_linezero(ctx)
     r_msgid(ctx)
     w1(ctx)
@@ -556,3 +563,79 @@ def r7(ctx):
     ctx.check('R7', 'dcs:identity-includes-function', not bad, '%s:%d (qb_log_dcs_get)' % (d.file, bad[0].term_ln if bad else d.line),
               'a dynamic call site is identified by file, function, line, priority and format',
               'a dynamic call site is looked up without comparing the function name: two log calls that differ in the function only share one call site (function filters see the first)')
+
+
+def _ev_trees(ev):
+    return [t for t in (ev.d.get('e'), ev.d.get('lhs'), ev.d.get('rhs'), ev.d.get('init'), ev.d.get('cond')) if isinstance(t, dict)] + \
+           [a for a in (ev.args if ev.kind == 'CALL' else []) if isinstance(a, dict)]
+
+
+def _mentions_fn(g, name):
+    for b in g.blocks.values():
+        if b.cond is not None and any(n.get('k') in ('fn', 'ref') and n.get('n') == name for n in walk(b.cond)):
+            return True
+        for ev in b.events:
+            for t in _ev_trees(ev):
+                if any(n.get('k') in ('fn', 'ref') and n.get('n') == name for n in walk(t)):
+                    return True
+    return False
+
+
+def r8(ctx):
+    prog = ctx.prog
+    dis = prog.fn('_log_target_disable')
+    if not any(ev.callee == 'qb_log_target::close' for ev in dis.events('CALL')):
+        raise AnalysisBroken('_log_target_disable does not run the close callback')
+    closers = {}
+    for f in prog.all_fns():
+        for st in f.events('STORE'):
+            if last_field(st.lhs) == ('qb_log_target', 'close'):
+                r = unwrap(st.rhs)
+                if r.get('k') in ('fn', 'ref') and prog.has_fn(r['n']):
+                    closers.setdefault(r['n'], st)
+    if len(closers) < 3:
+        raise AnalysisBroken('R8: %d close callbacks installed by the library (file, syslog, blackbox expected)' % len(closers))
+    en = prog.fn('_log_target_enable')
+    called = sorted({ev.callee for ev in en.events('CALL') if prog.has_fn(ev.callee)})
+    for name, st in sorted(closers.items()):
+        unit = prog.fn(name).file
+        openers = [g for g in called if prog.fn(g).file == unit and _mentions_fn(prog.fn(g), name)]
+        ctx.check('R8', 'enable-reopens:%s' % name, bool(openers), st,
+                  'a target closed by %s at disable is opened again at enable (%s)' % (name, ', '.join(openers)),
+                  '_log_target_disable runs %s, but _log_target_enable calls nothing in %s that knows it (calls: %s): a target of that kind that was disabled and enabled again reports ENABLED and receives nothing'
+                  % (name, unit, ', '.join(called) or 'none'))
+
+
+def r10(ctx):
+    prog = ctx.prog
+    st_fn = prog.fn('_log_filter_store')
+    ins = [ev for ev in st_fn.events('CALL') if ev.callee in ('qb_list_add_tail', 'qb_list_add')]
+    if len(ins) != 1:
+        raise AnalysisBroken('_log_filter_store: list insertions = %d' % len(ins))
+    want = 'next' if ins[0].callee == 'qb_list_add_tail' else 'prev'
+    walks = []
+    for g in prog.all_fns(files={'lib/log.c'}):
+        # local aliases of the tag filter list
+        alias = {'tags_head'}
+        for st in g.events('STORE'):
+            if st.rhs is not None and unwrap(st.lhs).get('k') == 'var' and any(n.get('k') == 'var' and n.get('n') == 'tags_head' for n in walk(st.rhs)):
+                alias.add(estr(st.lhs))
+        for ev in list(g.events('STORE')) + list(g.events('DECL')):
+            rhs = ev.rhs if ev.kind == 'STORE' else ev.d.get('init')
+            if not isinstance(rhs, dict):
+                continue
+            for n in walk(rhs):
+                if n.get('k') == 'mem' and n.get('f') in ('next', 'prev') and any(m.get('k') == 'var' and m.get('n') in alias for m in walk(n['b'])):
+                    walks.append((g, ev, n['f']))
+    if len(walks) < 2:
+        raise AnalysisBroken('R10: %d walks over the tag filter list found' % len(walks))
+    ctx.check('R10', 'filters-appended', True, ins[0], 'a new filter is %s the list' % ('appended to' if want == 'next' else 'put at the head of'), '')
+    seen = set()
+    for (g, ev, d) in walks:
+        if (g.name, d == want) in seen:
+            continue
+        seen.add((g.name, d == want))
+        ctx.check('R10', '%s:replay-in-order-set' % g.name, d == want, ev,
+                  '%s walks the tag filter list in the order the filters were set' % g.name,
+                  '%s walks the tag filter list by %s while _log_filter_store inserts with %s: the stored filters are replayed in the reverse of the order they were applied in when they were set - where two tag filters select one call site its tag depends on whether it was first used before or after they were set, and flips when an unrelated tag filter is cleared'
+                  % (g.name, d, ins[0].callee))
